@@ -112,6 +112,17 @@ class AsgiEmit(Client):
             return st.with_cs("q2")
         raise Undecided(f"R5.1: more_body of {ast.unparse(node)[:60]} is not a decidable constant on this path ({show(more)})")
 
+    def pre_call_states(self, interp, callee, args, kwargs, node, st):
+        # a more_body argument that is a boolean expression of tracked flags is decided both ways
+        if callee_is(callee, "send_http_body") and callee[0] == "func":
+            more = dict(kwargs).get("more_body", args[2] if len(args) > 2 else FALSE)
+            if more[0] != "const" and interp.truth(more, st) is None:
+                from ..flow import is_boolish
+
+                if is_boolish(more) or (more[0] == "not"):
+                    return [s for _, s in interp.decide(more, st, node)]
+        return [st]
+
     def after_call(self, interp, callee, args, kwargs, node, st):
         if callee_is(callee, "send_http_start") and callee[0] == "func":
             self.starts.append((node, interp.frame.fn, list(args) + [v for _, v in kwargs]))
@@ -596,6 +607,20 @@ def check_filename(p: Program, rep: Report) -> None:
         rep.undecide("R5.6", "no header sink found in generate_common_headers")
 
 
+def check_cookie_lines(p: Program, rep: Report) -> None:
+    """set-cookie lines are header values too: no control characters may reach them (shared table analysis with C13)."""
+    from .cookie_common import DS, emitted, extract_writer
+
+    w = extract_writer(p, rep, "R5.7")  # a leaky unquoted-path predicate is reported from inside
+    bad = [c for c in range(256) if any(ord(x) < 0x20 or ord(x) == 0x7F for x in emitted(w, c))]
+    badl = [ch for ch in w.legal if ord(ch) < 0x20 or ord(ch) == 0x7F]
+    if bad or badl:
+        rep.violation("R5.7", construct(f"{DS}:{w.translator_name}", text=f"control characters emitted for {bad[:6]} {badl[:6]}"), w.translator_loc,
+                      "a cookie name/value can put a raw control character into the set-cookie header line")
+    else:
+        rep.ok("R5.7", "cookie escaper: no code point 0-255 is emitted as a raw control character (quoted and unquoted path)")
+
+
 def run(p: Program, rep: Report, tier: str) -> None:
     rep.explanation = (
         "Typestate analysis of the emit sequence on all paths (normal and exceptional) of every concrete response "
@@ -614,4 +639,5 @@ def run(p: Program, rep: Report, tier: str) -> None:
     check_wsgi(p, rep)
     check_hop_by_hop(p, rep)
     check_filename(p, rep)
+    check_cookie_lines(p, rep)
     rep.require_instances("R5.2", 10)
